@@ -26,6 +26,54 @@ pub enum Target {
     /// a sequence whose elements fall back to their default when they cannot be deserialized (the
     /// `DefaultOnError` pattern): the element swallows whatever error it is shown, a reader failure included
     LenientVec,
+    /// a map visitor that reads the first entry of a mapping and returns (allowed by serde's contract:
+    /// the deserializer is responsible for what the visitor left unread)
+    FirstEntry,
+    /// a root type that turns any error of its inner type into a default: the inner type may have
+    /// consumed part of the document when it failed
+    LenientRoot,
+    /// an enum whose variants are selected by a YAML tag, some of them with empty or null-like content
+    TagEn,
+}
+
+/// First entry of a mapping; the visitor returns without asking for a second key.
+#[derive(Debug, PartialEq)]
+pub struct FirstEntry(pub String, pub Tree);
+impl<'de> Deserialize<'de> for FirstEntry {
+    fn deserialize<D: serde::Deserializer<'de>>(d: D) -> Result<Self, D::Error> {
+        struct V;
+        impl<'de> serde::de::Visitor<'de> for V {
+            type Value = FirstEntry;
+            fn expecting(&self, f: &mut std::fmt::Formatter) -> std::fmt::Result {
+                f.write_str("a mapping with at least one entry")
+            }
+            fn visit_map<A: serde::de::MapAccess<'de>>(self, mut a: A) -> Result<FirstEntry, A::Error> {
+                match a.next_entry::<String, Tree>()? {
+                    Some((k, v)) => Ok(FirstEntry(k, v)),
+                    None => Err(serde::de::Error::custom("empty mapping")),
+                }
+            }
+        }
+        d.deserialize_map(V)
+    }
+}
+
+/// `Some(i64)`, or `None` whenever an `i64` cannot be read.
+#[derive(Debug, PartialEq)]
+pub struct LenientRoot(pub Option<i64>);
+impl<'de> Deserialize<'de> for LenientRoot {
+    fn deserialize<D: serde::Deserializer<'de>>(d: D) -> Result<Self, D::Error> {
+        Ok(LenientRoot(i64::deserialize(d).ok()))
+    }
+}
+
+#[derive(Clone, Debug, Serialize, Deserialize, PartialEq)]
+pub enum TagEn {
+    Start,
+    Stop,
+    Speed(i32),
+    Note(String),
+    Limit(Option<i32>),
 }
 
 /// `T`, or its default when `T` cannot be deserialized.
@@ -52,7 +100,10 @@ impl<'de> Deserialize<'de> for RcS {
 
 pub type RcMapT = BTreeMap<String, RcS>;
 
-pub const ALL_TARGETS: [Target; 17] = [
+pub const ALL_TARGETS: [Target; 20] = [
+    Target::FirstEntry,
+    Target::LenientRoot,
+    Target::TagEn,
     Target::LenientVec,
     Target::RcMap,
     Target::Json,
@@ -151,6 +202,9 @@ macro_rules! with_target {
             $crate::types::Target::Bool => $f::<bool>($($args),*),
             $crate::types::Target::RcMap => $f::<$crate::types::RcMapT>($($args),*),
             $crate::types::Target::LenientVec => $f::<Vec<$crate::types::Lenient<i64>>>($($args),*),
+            $crate::types::Target::FirstEntry => $f::<$crate::types::FirstEntry>($($args),*),
+            $crate::types::Target::LenientRoot => $f::<$crate::types::LenientRoot>($($args),*),
+            $crate::types::Target::TagEn => $f::<$crate::types::TagEn>($($args),*),
         }
     };
 }
@@ -239,6 +293,100 @@ impl garde::Validate for Tree {
 }
 
 impl validator::Validate for Tree {
+    fn validate(&self) -> Result<(), validator::ValidationErrors> {
+        Ok(())
+    }
+}
+
+/// A target that reads nothing (a `Deserialize` impl that ignores its input).
+#[derive(Debug, PartialEq)]
+pub struct Noop;
+impl<'de> Deserialize<'de> for Noop {
+    fn deserialize<D: serde::Deserializer<'de>>(_d: D) -> Result<Self, D::Error> {
+        Ok(Noop)
+    }
+}
+impl garde::Validate for Noop {
+    type Context = ();
+    fn validate_into(&self, _ctx: &(), _parent: &mut dyn FnMut() -> garde::Path, _report: &mut garde::Report) {}
+}
+impl validator::Validate for Noop {
+    fn validate(&self) -> Result<(), validator::ValidationErrors> {
+        Ok(())
+    }
+}
+
+/// "Best effort" untyped tree: a container keeps what it could read and stops at the first element, key or
+/// value that fails, whatever the failure was (a budget breach or a reader failure included).
+#[derive(Clone, Debug, PartialEq)]
+pub struct BestEffortTree(pub Tree);
+impl<'de> Deserialize<'de> for BestEffortTree {
+    fn deserialize<D: serde::Deserializer<'de>>(d: D) -> Result<Self, D::Error> {
+        struct V;
+        impl<'de> serde::de::Visitor<'de> for V {
+            type Value = Tree;
+            fn expecting(&self, f: &mut std::fmt::Formatter) -> std::fmt::Result {
+                f.write_str("any YAML node")
+            }
+            fn visit_unit<E>(self) -> Result<Tree, E> {
+                Ok(Tree::Null)
+            }
+            fn visit_none<E>(self) -> Result<Tree, E> {
+                Ok(Tree::Null)
+            }
+            fn visit_some<D2: serde::Deserializer<'de>>(self, d: D2) -> Result<Tree, D2::Error> {
+                BestEffortTree::deserialize(d).map(|t| t.0)
+            }
+            fn visit_bool<E>(self, v: bool) -> Result<Tree, E> {
+                Ok(Tree::Bool(v))
+            }
+            fn visit_i64<E>(self, v: i64) -> Result<Tree, E> {
+                Ok(Tree::I(v))
+            }
+            fn visit_u64<E>(self, v: u64) -> Result<Tree, E> {
+                Ok(Tree::U(v))
+            }
+            fn visit_f64<E>(self, v: f64) -> Result<Tree, E> {
+                Ok(Tree::F(v.to_bits()))
+            }
+            fn visit_str<E>(self, v: &str) -> Result<Tree, E> {
+                Ok(Tree::S(v.to_string()))
+            }
+            fn visit_string<E>(self, v: String) -> Result<Tree, E> {
+                Ok(Tree::S(v))
+            }
+            fn visit_bytes<E>(self, v: &[u8]) -> Result<Tree, E> {
+                Ok(Tree::S(String::from_utf8_lossy(v).into_owned()))
+            }
+            fn visit_seq<A: serde::de::SeqAccess<'de>>(self, mut a: A) -> Result<Tree, A::Error> {
+                let mut v = Vec::new();
+                while let Ok(Some(x)) = a.next_element::<BestEffortTree>() {
+                    v.push(x.0);
+                }
+                Ok(Tree::Seq(v))
+            }
+            fn visit_map<A: serde::de::MapAccess<'de>>(self, mut a: A) -> Result<Tree, A::Error> {
+                let mut v = Vec::new();
+                while let Ok(Some(k)) = a.next_key::<BestEffortTree>() {
+                    match a.next_value::<BestEffortTree>() {
+                        Ok(x) => v.push((k.0, x.0)),
+                        Err(_) => break,
+                    }
+                }
+                Ok(Tree::Map(v))
+            }
+            fn visit_newtype_struct<D2: serde::Deserializer<'de>>(self, d: D2) -> Result<Tree, D2::Error> {
+                BestEffortTree::deserialize(d).map(|t| t.0)
+            }
+        }
+        d.deserialize_any(V).map(BestEffortTree)
+    }
+}
+impl garde::Validate for BestEffortTree {
+    type Context = ();
+    fn validate_into(&self, _ctx: &(), _parent: &mut dyn FnMut() -> garde::Path, _report: &mut garde::Report) {}
+}
+impl validator::Validate for BestEffortTree {
     fn validate(&self) -> Result<(), validator::ValidationErrors> {
         Ok(())
     }
